@@ -356,7 +356,8 @@ def normalize(ops):
 def annotate(ops, ans):
     out = []
     for i, o in enumerate(ops):
-        if o in ("uniq", "sort") and i + 1 < len(ops) and ops[i + 1].startswith("hosts") and i + 1 < len(ans):
+        if o in ("uniq", "sort") and i + 1 < len(ops) and ops[i + 1].startswith("hosts") and i + 1 < len(ans) \
+           and ans[i + 1].count(",") < 3000:       # (a runaway list is reported at the `hosts` op; the spec's admissibility test is quadratic)
             out.append(o + " @ " + ans[i + 1])
         else:
             out.append(enc(o))
